@@ -245,3 +245,9 @@ def run(F, rep):
         rep.check(not direct, 'C14.I1', '%s|%s' % (a['func'].name, a['element']), a['func'].where(a['site']), '%s recognises the id of <%s> with isType("id"): the cmeta:id of a 1.x document is reported as an invalid attribute and lost' % (a['func'].short, a['element']), 'isIdAttribute')
     if n_i < 10:
         raise AnalysisBroken('C14.I1: only %d id-recognition sites (13 confirmed)' % n_i)
+
+    # ------------------------------------------------------------------ loop-carried locals
+    from engines import rule_loop_state
+    rule_loop_state(F, rep, 'C14.S1', lambda g: g.file.endswith(('/parser.cpp', '/xmlutils.cpp')), 'parser.cpp and xmlutils.cpp')
+
+
